@@ -1,12 +1,59 @@
 (* InsHierRun.v — run_ibh extended by one column: for a call with ONE successor whose predecessors are all
    blocks (no region) do the hypotheses of the universal path theorem hold (InsHierApplic.walk_pre_ins) and
    is the hierarchy the theorem speaks about the one the implementation produced?  1 yes, 0 no, 2 not such
-   a call (no or several successors, or a region among the predecessors). *)
+   a call (several successors, or a region among the predecessors), 3 the closing of the graph (join_returns:
+   no successor) on an input that meets the hypotheses of C01_closing_preserves_paths (JoinPath.Input, as a
+   boolean) and whose result is the one the implementation produced. *)
 From Coq Require Import List ZArith Bool.
 Import ListNotations.
 From V Require Import Valid.Hier Model.Graph Model.Edits Model.Edits2 Model.Extract Model.CbHier Model.LoopHier
-     Model.InsHier Model.InsHierApplic Model.LoopHierRun.
+     Model.InsHier Model.InsHierApplic Model.LoopHierRun Model.JoinPath Model.Total2.
 Local Open Scope Z_scope.
+
+(* JoinPath.Input as a boolean *)
+Definition input_okb (g : egraph) (top fresh : name) : bool :=
+  nodupb (ekeys g) &&
+  forallb (fun p => match e_kind (snd p) with EPlain c => Z.eqb c 100 | _ => false end &&
+                    match e_be (snd p) with [] => true | _ => false end &&
+                    forallb (fun t => zmem t (ekeys g)) (e_jt (snd p))) g &&
+  negb (zmem top (ekeys g)) && negb (Z.eqb top 0) && negb (Z.eqb fresh top) && negb (zmem fresh (ekeys g)).
+
+Lemma input_okb_sound g top fresh : input_okb g top fresh = true -> Input g top fresh.
+Proof.
+  unfold input_okb. intros H.
+  apply andb_true_iff in H as [H H6]. apply andb_true_iff in H as [H H5]. apply andb_true_iff in H as [H H4].
+  apply andb_true_iff in H as [H H3]. apply andb_true_iff in H as [H1 H2]. rewrite forallb_forall in H2.
+  constructor.
+  - apply nodupb_sound. exact H1.
+  - intros x b Hin. specialize (H2 (x, b) Hin). cbn [snd] in H2. apply andb_true_iff in H2 as [H2 _].
+    apply andb_true_iff in H2 as [A B]. split.
+    + destruct (e_kind b); try discriminate. apply Z.eqb_eq in A. congruence.
+    + destruct (e_be b); [reflexivity|discriminate].
+  - intros x b t Hin Ht. specialize (H2 (x, b) Hin). cbn [snd] in H2. apply andb_true_iff in H2 as [_ C].
+    rewrite forallb_forall in C. apply zmem_In. apply C. exact Ht.
+  - apply negb_true_iff in H3, H4, H5. apply zmem_false in H3. apply Z.eqb_neq in H4, H5. auto.
+  - apply negb_true_iff in H6. apply zmem_false in H6. exact H6.
+Qed.
+
+(* the hierarchy is the flat input: the top region and original blocks in it *)
+Definition flat_inputb (h : hier) (lvl : name) : bool :=
+  forallb (fun n => Z.eqb (n_name n) lvl || (Z.eqb (n_parent n) lvl && match n_kind n with KOrig _ => true | _ => false end)) h.
+
+Definition closing_col (h ha : hier) (lvl new cls : Z) (preds : list name) : Z :=
+  match level_graph h lvl with
+  | Some g1 =>
+    if flat_inputb h lvl && input_okb g1 TOP new && Z.eqb cls 3 then
+      match join_returns g1 new 3 with
+      | Ok g1' =>
+        let h' := write_back h lvl g1' in
+        if Nat.eqb (length h') (length ha) &&
+           forallb (fun n => match find ha (n_name n) with Some m => xnode_eqb n m | None => false end) h'
+        then 3 else 2
+      | _ => 2
+      end
+    else 2
+  | None => 2
+  end.
 
 Definition ins_col (rows : list (list Z)) : Z :=
   let '(br, ar, op, st) := split_ib rows in
@@ -31,6 +78,7 @@ Definition ins_col (rows : list (list Z)) : Z :=
           | _, _ => 0
           end
         else 0
+      | Some ([], []) => match decode ar with Some (_, ha) => closing_col h ha lvl new cls preds | None => 2 end
       | Some (_, []) => 2
       | _ => 0
       end
